@@ -1,12 +1,15 @@
 import LyModel.Sib.RbInvLemmas
+import LyModel.Sib.RbReach
 /-!
-# C04, stage 2 — the red-black tree behind a system-ordered (leaf-)list (`tree_data_sorted.c`), insertion
+# C04, stage 2 — the red-black tree behind a system-ordered (leaf-)list (`tree_data_sorted.c`), insertion and removal
 
 `Rb.insert` mirrors `rb_insert_node` + `rb_insert_color` case by case (same rotations, same recolourings: the shapes are
 compared with the real tree by the white-box harness).  The theorems tie it to the sibling-list model: the in-order
 sequence of the tree after an insertion is the instance block after `Sib.insertNode` (`sins` = behind every key that is
-≤ the new one), and the red-black invariants hold after every insertion.  Removal (`rb_remove`, `rb_remove_color`) is
-NOT modelled: the harness checks in-order = sibling order and the red-black invariants on the real tree after every op.
+≤ the new one), and the red-black invariants hold after every insertion.  `Rb.remove` mirrors `rb_remove` +
+`rb_remove_color` the same way (Sib/RbDel.lean; shapes compared after every op of insert/unlink scripts, harness op `rbs`):
+the in-order sequence loses exactly the removed position, the invariants are kept, and both hold along every interleaving
+of insertions and removals (`rb_reachable_ins_del`), also with the `lyds_tree` life cycle around it (`lyds_reachable`).
 -/
 namespace LyModel.Props.C04Rb
 open LyModel LyModel.Sib LyModel.Sib.Rb
@@ -85,5 +88,108 @@ example : inorder ([5, 3, 8, 3, 4, 9, 1].foldl (fun t x => Rb.insert (fun d y =>
 example : shape (fun (k : Int) => toString k)
     ([5, 3, 8, 3, 4].foldl (fun t x => Rb.insert (fun d y => decide (d > y)) x t) (T.nil : T Int)) =
     ["B5", "B3", "R3", ".", ".", "R4", ".", ".", "B8", ".", "."] := by decide
+
+/-! ## removal -/
+
+/-- `rb_remove` + `rb_remove_color` of the red-black node at in-order position `i` (the node `rb_find` returns for the `i`-th
+    instance): the in-order sequence afterwards is the old one with exactly that position deleted — for EVERY tree (no
+    balance or order hypothesis: the rotations and recolourings of the fix-up never reorder) -/
+theorem rb_inorder_remove {α : Type} (t : T α) (i : Nat) : inorder (Rb.remove i t) = (inorder t).eraseIdx i :=
+  inorder_remove t i
+
+/-- equal black heights, no red node with a red child, black root — kept by every removal (at any position; a position
+    beyond the end removes nothing) -/
+theorem rb_remove_isRB {α : Type} (i : Nat) (t : T α) (h : IsRB t) : IsRB (Rb.remove i t) :=
+  remove_isRB i t h
+
+/-- non-vacuity (audit): on the seven-node tree `auT` — removing the root (two children: the successor `"x"` takes its
+    place), a black leaf (black height repaired by the fix-up) and the first of the two equal keys -/
+example : (inorder (Rb.remove 4 auT)).map (·.id) = [6, 2, 4, 5, 3, 7] ∧ IsRB (Rb.remove 4 auT) ∧
+    (inorder (Rb.remove 0 auT)).map (·.id) = [2, 4, 5, 1, 3, 7] ∧ IsRB (Rb.remove 0 auT) ∧
+    (inorder (Rb.remove 1 auT)).map (·.id) = [6, 4, 5, 1, 3, 7] :=
+  ⟨by decide, rb_remove_isRB _ _ (rb_reachable keyGt _), by decide, rb_remove_isRB _ _ (rb_reachable keyGt _), by decide⟩
+
+/-- the shapes: 1..7 inserted in order give `B2 (B1) (R4 (B3) (B6 R5 R7))`; removing the black leaf `1` meets the RED sibling
+    `4`: rotate (`4` black on top, `2` red), then the new sibling `3` has black nephews and a red parent: `3` red, `2` black —
+    exactly the walk of `rb_remove_color` (the same tokens the white-box harness prints) -/
+example : shape (fun (k : Int) => toString k)
+    (Rb.remove 0 ([1, 2, 3, 4, 5, 6, 7].foldl (fun t x => Rb.insert (fun d y => decide (d > y)) x t) (T.nil : T Int))) =
+    ["B4", "B2", ".", "R3", ".", ".", "B6", "R5", ".", ".", "R7", ".", "."] := by decide
+
+/-! `RbOp α` = `.ins x` (`rb_insert_node` of a new instance) | `.del i` (`rb_remove_node` of the instance at position `i`);
+   `rbStep gt t op` = `Rb.insert gt x t` / `Rb.remove i t` (what the C code does to the tree);
+   `seqStep gt l op` = `sins (≤) x l` / `l.eraseIdx i` (what the edit means for the sorted-stable instance list: a new instance
+   goes behind every instance `≤` it, an unlinked one disappears, nothing else moves) — Sib/RbReach.lean -/
+
+/-- EVERY tree reachable from a valid one by any interleaving of insertions and removals is a valid red-black tree, its
+    in-order sequence is the instance list maintained by sorted-stable insertion and deletion, and that list is sorted —
+    for every comparison whose `≤` (`rb_compare(a, b) <= 0`) is total and transitive -/
+theorem rb_reachable_ins_del {α : Type} (gt : α → α → Bool)
+    (total : ∀ a b, gt a b = false ∨ gt b a = false)
+    (trans : ∀ a b c, gt a b = false → gt b c = false → gt a c = false)
+    (ops : List (RbOp α)) (t : T α) (h : IsRB t) (hs : (inorder t).Pairwise (fun a b => gt a b = false)) :
+    IsRB (ops.foldl (rbStep gt) t) ∧
+    inorder (ops.foldl (rbStep gt) t) = ops.foldl (seqStep gt) (inorder t) ∧
+    (inorder (ops.foldl (rbStep gt) t)).Pairwise (fun a b => gt a b = false) := by
+  induction ops generalizing t with
+  | nil => exact ⟨h, rfl, hs⟩
+  | cons o r ih =>
+    simp only [List.foldl_cons]
+    cases o with
+    | ins x =>
+      have hi : inorder (Rb.insert gt x t) = sins (fun a b => !gt a b) x (inorder t) := inorder_insert gt trans x t hs
+      have hs' : (inorder (Rb.insert gt x t)).Pairwise (fun a b => gt a b = false) := by
+        rw [hi]
+        have := sins_sorted (fun a b => !gt a b) (by intro a b; simpa using total a b)
+          (by intro a b c; simpa using trans a b c) x (inorder t) (by simpa using hs)
+        simpa using this
+      have := ih (Rb.insert gt x t) (insert_isRB gt x t h) hs'
+      simpa only [rbStep, seqStep, hi] using this
+    | del i =>
+      have hi : inorder (Rb.remove i t) = (inorder t).eraseIdx i := inorder_remove t i
+      have hs' : (inorder (Rb.remove i t)).Pairwise (fun a b => gt a b = false) := by
+        rw [hi]; exact hs.sublist (List.eraseIdx_sublist ..)
+      have := ih (Rb.remove i t) (remove_isRB i t h) hs'
+      simpa only [rbStep, seqStep, hi] using this
+
+theorem keyGt_total (a b : Node) : keyGt a b = false ∨ keyGt b a = false := by
+  simp only [keyGt, Bool.not_eq_false']
+  exact Key.le_total a.key b.key
+
+/-- non-vacuity (audit): from the empty tree with the model's real key order; 9 edits with removals at the front (the
+    leader), in the middle and of an equal key -/
+def auOps : List (RbOp Node) :=
+  [.ins ⟨1, none, .int 5⟩, .ins ⟨2, none, .int 3⟩, .ins ⟨3, none, .int 8⟩, .ins ⟨4, none, .int 3⟩, .del 0, .ins ⟨5, none, .int 4⟩,
+   .ins ⟨6, none, .int 9⟩, .del 2, .ins ⟨7, none, .int 1⟩, .del 1, .ins ⟨8, none, .int 8⟩]
+
+example : IsRB (auOps.foldl (rbStep keyGt) T.nil) ∧
+    (inorder (auOps.foldl (rbStep keyGt) T.nil)).map (·.id) = [7, 5, 3, 8, 6] :=
+  ⟨(rb_reachable_ins_del keyGt keyGt_total keyGt_trans auOps T.nil ⟨trivial, trivial, rfl⟩ List.Pairwise.nil).1, by decide⟩
+
+/-! ## the `lyds_tree` metadata around the tree (`lyds_insert`, `lyds_unlink`) -/
+
+/-! `Lyds` (Sib/RbDel.lean) = the tree the `lyds_tree` metadata of the first instance points to + the instance count;
+   `Lyds.insert` = `lyds_insert` (no tree with one instance; built from the instance present when the second arrives),
+   `Lyds.unlink` = `lyds_unlink` (`rb_remove_node`; the last instance takes the metadata and the tree with it).
+   `LydsOk s l` (Sib/RbReach.lean): `s.n = l.length`, `IsRB s.tree`, and either there is no tree and at most one instance, or
+   `inorder s.tree = l`;  `lydsStep gt (s, l) op` = both components edited (`.del i` with `i` beyond the list: no-op). -/
+
+/-- every history of insertions and unlinks of instances, from no instance at all, keeps `LydsOk` and the sibling order
+    sorted: the lazily created tree (`lyds_additionally_create_rb_tree` with the second instance), every `rb_insert_node`,
+    every `rb_remove_node` — including the one of the leader, after which the root pointer belongs to the next instance —
+    and the disposal with the last instance -/
+theorem lyds_reachable {α : Type} (gt : α → α → Bool)
+    (total : ∀ a b, gt a b = false ∨ gt b a = false)
+    (trans : ∀ a b c, gt a b = false → gt b c = false → gt a c = false)
+    (ops : List (RbOp α)) :
+    LydsOk (ops.foldl (lydsStep gt) (Lyds.empty, [])).1 (ops.foldl (lydsStep gt) (Lyds.empty, [])).2 ∧
+    (ops.foldl (lydsStep gt) (Lyds.empty, [])).2.Pairwise (fun a b => gt a b = false) :=
+  lyds_run_ok gt total trans ops (Lyds.empty, []) ⟨rfl, ⟨trivial, trivial, rfl⟩, Or.inl ⟨rfl, Nat.zero_le _⟩⟩ List.Pairwise.nil
+
+/-- non-vacuity (audit): the same 11 edits through the life cycle; the tree is absent with one instance, present after -/
+example : size ((auOps.take 1).foldl (lydsStep keyGt) (Lyds.empty, [])).1.tree = 0 ∧
+    (inorder (auOps.foldl (lydsStep keyGt) (Lyds.empty, [])).1.tree).map (·.id) = [7, 5, 3, 8, 6] ∧
+    LydsOk (auOps.foldl (lydsStep keyGt) (Lyds.empty, [])).1 (auOps.foldl (lydsStep keyGt) (Lyds.empty, [])).2 :=
+  ⟨by decide, by decide, (lyds_reachable keyGt keyGt_total keyGt_trans auOps).1⟩
 
 end LyModel.Props.C04Rb
